@@ -1,6 +1,11 @@
 """C09 fact extractor: regenerates props/C09/coq/Extracted.v from
 crates/core/src/commands/forget.rs — the nine period predicates (`equal_*`), the
-rows of `keep_checks` in `KeepOptions::matches`, and the field list of `is_valid`."""
+rows of `keep_checks` in `KeepOptions::matches`, the field list of `is_valid`, the
+sort order `apply` uses, the `filter_map` of `into_forget_ids`, the keep decision of
+`from_snapshots`, the shape of `from_grouped_snapshots_with_retention` —, from
+repofile/snapshotfile/grouping.rs — the fields of the group key, its equality and order,
+sort + chunk_by of `Grouped::from_items` — and from repofile/snapshotfile.rs — the order
+on snapshot files, `must_keep`, `must_delete`."""
 import re, sys, os
 sys.path.insert(0, os.path.join(os.path.dirname(__file__), "..", "..", "lib"))
 from rustscan import *
@@ -35,7 +40,156 @@ def tr_pred(body):
     parts = [p.strip() for p in e.split("&&")]
     return " && ".join("(%s)" % p for p in parts)
 
+def norm(x):
+    """one-line form: single spaces, no space before a method-call dot"""
+    return re.sub(r"\s+\.(?=\w)", ".", " ".join(x.split()))
+
+def impl_block(src, header_re, what):
+    m = re.search(header_re, src)
+    if not m: raise ExtractError(what + " not found")
+    b = src.find("{", m.end() - 1)
+    return src[b + 1:match_brace(src, b)]
+
+# group-key fields: (field of SnapshotGroup, type) -> Coq projections and comparators
+GFIELD = {"hostname": ("gk_host", "cr_host", "s_host", "String"), "label": ("gk_label", "cr_label", "s_label", "String"),
+          "paths": ("gk_paths", "cr_paths", "s_paths", "StringList"), "tags": ("gk_tags", "cr_tags", "s_tags", "StringList")}
+GCMP = {"String": "cmp_str", "StringList": "cmp_strlist"}
+GEQB = {"String": "eqb_str", "StringList": "eqb_strlist"}
+
+def gen_grouping(repo, out):
+    g = read(repo, "crates/core/src/repofile/snapshotfile/grouping.rs")
+    # struct SnapshotGroup: its fields and the derived equality
+    m = re.search(r"((?:#\[[^\]]*\]\s*)*)pub struct SnapshotGroup\s*\{", g)
+    if not m: raise ExtractError("struct SnapshotGroup not found")
+    attrs = m.group(1)
+    if not re.search(r"derive\([^)]*\bPartialEq\b[^)]*\bEq\b", attrs):
+        raise ExtractError("SnapshotGroup no longer derives PartialEq, Eq")
+    b = g.find("{", m.end() - 1)
+    fields = re.findall(r"pub\s+(\w+)\s*:\s*Option<\s*(\w+)\s*>", g[b:match_brace(g, b)])
+    if [f for f, _ in fields] != list(GFIELD) or any(GFIELD[f][3] != t for f, t in fields):
+        raise ExtractError("SnapshotGroup fields are not hostname/label: Option<String>, paths/tags: Option<StringList>: %r" % fields)
+    # SnapshotGroup::from_snapshot: which snapshot field feeds which key field under which criterion flag
+    body = norm(fn_body(g, "from_snapshot"))
+    mm = re.fullmatch(r"Self \{ (.*?),? \}", body)
+    if not mm: raise ExtractError("SnapshotGroup::from_snapshot has an unrecognised shape: " + body)
+    rows = re.findall(r"(\w+): crit\.(\w+)\.then\(\|\| sn\.(\w+)\.clone\(\)\)", mm.group(1))
+    rest = re.sub(r"(\w+): crit\.(\w+)\.then\(\|\| sn\.(\w+)\.clone\(\)\)", "", mm.group(1)).replace(",", "").strip()
+    if rest or sorted(r[0] for r in rows) != sorted(GFIELD):
+        raise ExtractError("SnapshotGroup::from_snapshot fields not recognised: " + body)
+    ks = []
+    for (gf, cf, sf) in rows:
+        if cf not in GFIELD or sf not in GFIELD: raise ExtractError("from_snapshot uses unknown field %s/%s" % (cf, sf))
+        if GFIELD[sf][3] != GFIELD[gf][3]: raise ExtractError("from_snapshot: type of %s does not fit %s" % (sf, gf))
+        val = "(%s s)" % GFIELD[sf][2]
+        if GFIELD[sf][3] == "StringList": val = "(canon %s)" % val
+        ks.append("%s := if %s c then Some %s else None" % (GFIELD[gf][0], GFIELD[cf][1], val))
+    out.append("(* SnapshotGroup::from_snapshot *)")
+    out.append("Definition gkey (c : crit) (s : snap) : gkeyT :=\n  {| " + ";\n     ".join(ks) + " |}.")
+    # derived PartialEq: all fields
+    out.append("(* #[derive(PartialEq, Eq)] on SnapshotGroup *)")
+    out.append("Definition gkey_eqb (a b : gkeyT) : bool :=\n  " + " && ".join(
+        "opt_eqb %s (%s a) (%s b)" % (GEQB[t], GFIELD[f][0], GFIELD[f][0]) for f, t in fields) + ".")
+    # impl Ord for SnapshotGroup
+    ob = norm(fn_body(impl_block(g, r"impl\s+Ord\s+for\s+SnapshotGroup\s*\{", "impl Ord for SnapshotGroup"), "cmp"))
+    ob = ob.replace("( ", "(").replace(" )", ")")
+    mm = re.fullmatch(r"self\.(\w+)\.cmp\(&other\.(\w+)\)((?:\.then\(self\.\w+\.cmp\(&other\.\w+\)\))*)", ob)
+    if not mm: raise ExtractError("Ord for SnapshotGroup has an unrecognised shape: " + ob)
+    chain = [(mm.group(1), mm.group(2))] + re.findall(r"\.then\(self\.(\w+)\.cmp\(&other\.(\w+)\)\)", mm.group(3))
+    e = None
+    for (fa, fb) in chain:
+        if fa not in GFIELD or fb not in GFIELD: raise ExtractError("Ord for SnapshotGroup compares unknown field " + fa)
+        t = "cmp_opt %s (%s a) (%s b)" % (GCMP[GFIELD[fa][3]], GFIELD[fa][0], GFIELD[fb][0])
+        e = t if e is None else "then_cmp (%s) (%s)" % (e, t)
+    out.append("(* impl Ord for SnapshotGroup *)")
+    out.append("Definition gkey_cmp (a b : gkeyT) : comparison :=\n  %s." % e)
+    # impl Grouping for SnapshotFile, Grouped::from_items
+    gb = norm(fn_body(impl_block(g, r"impl\s+Grouping\s+for\s+SnapshotFile\s*\{", "impl Grouping for SnapshotFile"), "get_group"))
+    if gb != "SnapshotGroup::from_snapshot(self, c)":
+        raise ExtractError("SnapshotFile::get_group is no longer SnapshotGroup::from_snapshot(self, c): " + gb)
+    fi = norm(fn_body(g, "from_items"))
+    want = ("items.sort_unstable_by_key(|item| item.get_group(criterion)); let mut groups = Vec::new(); "
+            "for (group, snaps) in &items.into_iter().chunk_by(|item| item.get_group(criterion)) { "
+            "groups.push(Group { group_key: group, items: snaps.collect(), }); } Self { criterion, groups }")
+    if fi != want:
+        raise ExtractError("Grouped::from_items is no longer `sort by group key; chunk_by group key`: " + fi)
+    out.append("(* Grouped::from_items: sort_unstable_by_key(get_group) then chunk_by(get_group); fact checked by the extractor *)")
+    out.append("Definition from_items_sorts_by_group_key : bool := true.")
+
+def tr_bool(e, env):
+    """tiny boolean expression translator: identifiers of env, `!`, `&&`, `||`, parentheses"""
+    e = e.strip()
+    toks = re.findall(r"&&|\|\||!|\(|\)|[\w.]+(?:\(\w*\))?", e)
+    if "".join(toks) != e.replace(" ", ""): raise ExtractError("boolean expression not recognised: " + e)
+    o = []
+    for t in toks:
+        if t == "&&" or t == "||" or t in "()": o.append(t)
+        elif t == "!": o.append("negb")
+        elif t in env: o.append(env[t])
+        else: raise ExtractError("unknown operand %s in %s" % (t, e))
+    return " ".join(o)
+
+def gen_forget(repo, src, out):
+    sf = read(repo, "crates/core/src/repofile/snapshotfile.rs")
+    ob = norm(fn_body(impl_block(sf, r"impl\s+Ord\s+for\s+SnapshotFile\s*\{", "impl Ord for SnapshotFile"), "cmp"))
+    if ob != "self.time.cmp(&other.time)":
+        raise ExtractError("Ord for SnapshotFile is no longer the order of `time`: " + ob)
+    out.append("(* impl Ord for SnapshotFile: by time (jiff compares the instants) *)")
+    out.append("Definition snap_cmp (a b : snap) : comparison := Z.compare (s_inst a) (s_inst b).")
+    ap = norm(fn_body(src, "apply"))
+    m = re.search(r"snapshots\.sort_unstable_by\(\|sn1, sn2\| (.*?)\);", ap)
+    if not m: raise ExtractError("the sort in KeepOptions::apply was not found")
+    srt = {"sn1.cmp(sn2).reverse()": "CompOpp (snap_cmp a b)", "sn2.cmp(sn1)": "snap_cmp b a",
+           "sn1.cmp(sn2)": "snap_cmp a b", "sn2.cmp(sn1).reverse()": "CompOpp (snap_cmp b a)"}
+    if m.group(1) not in srt: raise ExtractError("sort closure of KeepOptions::apply not recognised: " + m.group(1))
+    out.append("(* the closure of `snapshots.sort_unstable_by` in KeepOptions::apply *)")
+    out.append("Definition apply_order (a b : snap) : comparison := %s." % srt[m.group(1)])
+    if "let latest_time = snapshots[0].time.clone();" not in ap:
+        raise ExtractError("KeepOptions::apply: latest_time is no longer the time of the first sorted snapshot")
+    # must_keep / must_delete
+    mk = norm(fn_body(sf, "must_keep"))
+    if mk != "match &self.delete { DeleteOption::Never => true, DeleteOption::After(time) if time >= now => true, _ => false, }":
+        raise ExtractError("SnapshotFile::must_keep has an unrecognised shape: " + mk)
+    md = norm(fn_body(sf, "must_delete"))
+    if md != "matches!(&self.delete, DeleteOption::After(time) if time < now)":
+        raise ExtractError("SnapshotFile::must_delete has an unrecognised shape: " + md)
+    out.append("(* SnapshotFile::must_keep / must_delete *)")
+    out.append("Definition must_keep_src (d : delopt) (now : Z) : bool :=\n  match d with DNever => true | DAfter t => t >=? now | DNotSet => false end.")
+    out.append("Definition must_delete_src (d : delopt) (now : Z) : bool :=\n  match d with DAfter t => t <? now | _ => false end.")
+    # into_forget_ids
+    fi = norm(fn_body(src, "into_forget_ids"))
+    m = re.fullmatch(r"self\.0\.into_iter\(\)\.flat_map\(\|fg\| \{ fg\.items\.into_iter\(\)\.filter_map\(\|fsn\| \((.*?)\)\.then_some\((.*?)\)\) \}\)\.collect\(\)", fi)
+    if not m: raise ExtractError("ForgetGroups::into_forget_ids has an unrecognised shape: " + fi)
+    if m.group(2) != "fsn.snapshot.id": raise ExtractError("into_forget_ids no longer returns fsn.snapshot.id: " + m.group(2))
+    out.append("(* ForgetGroups::into_forget_ids: the filter_map over the items of every group *)")
+    out.append("Definition forget_pick (keep : bool) (id : list N) : option (list N) :=\n  if %s then Some id else None." % tr_bool(m.group(1), {"fsn.keep": "keep"}))
+    # from_grouped_snapshots_with_retention
+    fr = norm(fn_body(src, "from_grouped_snapshots_with_retention"))
+    want = ("let groups = g.groups.into_iter().map(|group| -> RusticResult<_> { Ok(Group { group_key: group.group_key, "
+            "items: keep.apply(group.items, now)?, }) }).collect::<RusticResult<_>>()?; Ok(Self(groups))")
+    if fr != want:
+        raise ExtractError("from_grouped_snapshots_with_retention is no longer `apply on the items of every group`: " + fr)
+    out.append("(* from_grouped_snapshots_with_retention: keep.apply(group.items, now) per group, key unchanged; checked by the extractor *)")
+    out.append("Definition retention_is_apply_per_group : bool := true.")
+    # from_snapshots
+    fs = norm(fn_body(src, "from_snapshots"))
+    m = re.fullmatch(r"let snapshots = snapshots\.into_iter\(\)\.map\(\|sn\| \{ let keep = (.*?); ForgetSnapshot \{ snapshot: sn, keep, "
+                     r"reasons: vec!\[if keep \{ \"(.*?)\" \} else \{ \"(.*?)\" \}\.to_string\(\)\], \} \}\)\.collect\(\); "
+                     r"let group = Group::default_group\(snapshots\); Self\(vec!\[group\]\)", fs)
+    if not m: raise ExtractError("ForgetGroups::from_snapshots has an unrecognised shape: " + fs)
+    out.append("(* ForgetGroups::from_snapshots: the keep flag as a function of must_keep(now) / must_delete(now) *)")
+    out.append("Definition from_snapshots_keep (mk md : bool) : bool := %s." % tr_bool(m.group(1), {"sn.must_keep(now)": "mk", "sn.must_delete(now)": "md", "true": "true", "false": "false"}))
+    return {"from_snapshots_reasons": (m.group(2), m.group(3))}
+
 def gen(repo):
+    out, meta, src = gen_base(repo)
+    out.append("")
+    gen_grouping(repo, out)
+    out.append("")
+    meta.update(gen_forget(repo, src, out))
+    return "\n".join(out) + "\n", meta
+
+def gen_base(repo):
+    """the facts about KeepOptions::matches / is_valid; returns (lines, meta, source text)"""
     src = read(repo, "crates/core/src/commands/forget.rs")
     out = ["(* GENERATED by props/C09/extract.py from crates/core/src/commands/forget.rs - do not edit *)",
            "From Verif.Base Require Import Tactics.",
@@ -85,7 +239,7 @@ def gen(repo):
         raise ExtractError("is_valid term not recognised: " + t)
     out.append("")
     out.append("Definition is_valid (k : keep) : bool :=\n  " + "\n  || ".join(ts) + ".")
-    return "\n".join(out) + "\n", {"reasons": reasons}
+    return out, {"reasons": reasons}, src
 
 if __name__ == "__main__":
     repo = sys.argv[1] if len(sys.argv) > 1 else "/repo"
